@@ -109,3 +109,60 @@ func COSESplice(a, b []byte, fromB []int) ([]byte, bool) {
 	out, err := cbor.Marshal(cbor.RawTag{Number: ta.Number, Content: content})
 	return out, err == nil
 }
+
+// SetTimestampSignature splices a countersignature (RFC 3161 token) into the
+// unsigned header of an envelope; nil removes it.
+func SetTimestampSignature(mediaType string, envelope, token []byte) ([]byte, bool) {
+	const key = "io.cncf.notary.timestampSignature"
+	if mediaType == JWS {
+		var m map[string]json.RawMessage
+		if json.Unmarshal(envelope, &m) != nil {
+			return nil, false
+		}
+		var h map[string]json.RawMessage
+		if json.Unmarshal(m["header"], &h) != nil {
+			return nil, false
+		}
+		if token == nil {
+			delete(h, key)
+		} else {
+			vb, _ := json.Marshal(token)
+			h[key] = vb
+		}
+		hb, _ := json.Marshal(h)
+		m["header"] = hb
+		out, err := json.Marshal(m)
+		return out, err == nil
+	}
+	var tag cbor.RawTag
+	if cbor.Unmarshal(envelope, &tag) != nil {
+		return nil, false
+	}
+	var elems []cbor.RawMessage
+	if cbor.Unmarshal(tag.Content, &elems) != nil || len(elems) != 4 {
+		return nil, false
+	}
+	var unprotected map[any]any
+	if cbor.Unmarshal(elems[1], &unprotected) != nil {
+		return nil, false
+	}
+	if unprotected == nil {
+		unprotected = map[any]any{}
+	}
+	if token == nil {
+		delete(unprotected, key)
+	} else {
+		unprotected[key] = token
+	}
+	ub, err := cbor.Marshal(unprotected)
+	if err != nil {
+		return nil, false
+	}
+	elems[1] = ub
+	content, err := cbor.Marshal(elems)
+	if err != nil {
+		return nil, false
+	}
+	out, err := cbor.Marshal(cbor.RawTag{Number: tag.Number, Content: content})
+	return out, err == nil
+}
